@@ -43,6 +43,9 @@ def probe_src():
         ex.append(f'pr("{g}")')
     for t in TN:
         ex.append(f'pr("type(\\"{t}\\", false).is_type_undef()")')
+        # the other direction: from an object of the type to its registered name
+        ex.append(f'pr("type_name({t.lower()}_obj) == \\"{t}\\"")')
+        ex.append(f'pr("{t.lower()}_obj.is_type(\\"{t}\\")")')
     ex += ['pr("K().kget()")', 'to_string(L0)']
     return "[" + ", ".join(ex) + "]"
 
@@ -66,6 +69,7 @@ def expected_probe(view):
         out.append(str(view["gl"][g]) if view["gl"][g] else "E")
     for t in TN:
         out.append("false" if view["ty"][t] else "true")
+        out += ["true" if view["ty"][t] else "false"] * 2
     out.append(str(view["cls"]) if view["cls"] else "E")
     out.append("5")
     return out
@@ -95,7 +99,7 @@ def export(family, n, hist_len, shards, work, seed):
 
 
 def to_case(rec, usedir, probe_after_set=True):
-    steps = [{"op": "eval", "src": SETUP}]
+    steps = [{"op": "add_type_objs"}, {"op": "eval", "src": SETUP}]
     serial = 0
     snaps = 0
     plan = []   # (kind, index of the op step, index of the probe step)
